@@ -139,6 +139,7 @@ pub(crate) fn restore_disclosure(
         }
         Value::Array(array) => {
             for (idx, item) in array.iter_mut().enumerate() {
+                let path = format_path(&current_path, &idx.to_string());
                 if item.is_object() {
                     let value = item.as_object().unwrap().get("...");
                     if value.is_some() && item.as_object().unwrap().len() != 1 {
@@ -154,11 +155,13 @@ pub(crate) fn restore_disclosure(
                                 disclosure.disclosure(),
                             )));
                         }
-                        let path = format_path(&current_path, &idx.to_string());
                         disclosure_paths.push(DisclosurePath::new(&path, disclosure));
                         *item = disclosure.value().clone();
                         is_restored = true;
                     }
+                }
+                if restore_disclosure(item, disclosure, path, disclosure_paths)? {
+                    is_restored = true;
                 }
             }
         }
